@@ -83,11 +83,14 @@ def run(tier, replay=None):
             for sp in ("u", "s"):
                 stride = 1201 + 2 * rnd.randrange(100)
                 argsets.append(["c04", "text", m, sp, rnd.randrange(stride), 1 << 32, stride, "@OUT"])
-    res = common.run_selfgen(exe, argsets, tag="c04", timeout=6 * 3600)
+    res = common.run_selfgen(exe, argsets, tag="c04", timeout=400 if tier == "quick" else 6 * 3600)
     per = {}
     chain = [0] * 10
     total = 0
     for args, rc, js, err in res:
+        if rc == -999:
+            v.violation("assembler-hang", {"args": [str(a) for a in args], "why": "the assembler did not finish this batch of operand values"})
+            continue
         if rc != 0 or js is None:
             v.violation("harness-crash:rc=%s" % rc, {"args": [str(a) for a in args], "stderr": err})
             continue
